@@ -28,8 +28,8 @@ PROPS = {
     'C01': dict(spec_mods=['SsoSpec.C01'], engines=['proxyflow', 'sfwrap']),
     'C02': dict(spec_mods=['SsoSpec.C02'], engines=['aead', 'authflow']),
     'C03': dict(spec_mods=['SsoSpec.C03'], engines=['forward', 'proxyflow']),
-    'C04': dict(spec_mods=['SsoSpec.C04', 'SsoSpec.C04History'], engines=['proxyflow', 'sfwrap']),
-    'C05': dict(spec_mods=['SsoSpec.C05'], engines=['proxyflow']),
+    'C04': dict(spec_mods=['SsoSpec.C04', 'SsoSpec.C04History'], engines=['proxyflow', 'sfwrap', 'config']),
+    'C05': dict(spec_mods=['SsoSpec.C05'], engines=['proxyflow', 'config']),
     'C06': dict(spec_mods=['SsoSpec.C06'], engines=['proxyflow', 'sfwrap', 'system']),
     'C07': dict(spec_mods=['SsoSpec.C07'], engines=['authflow', 'system']),
     'C08': dict(spec_mods=['SsoSpec.C08'], engines=['authflow', 'system']),
@@ -40,7 +40,7 @@ PROPS = {
     'C20': dict(spec_mods=['SsoSpec.C20'], engines=['htmlesc', 'authflow', 'proxyflow']),
     'C18': dict(spec_mods=['SsoSpec.C18'], engines=['proxyflow', 'authflow']),
     'C12': dict(spec_mods=['SsoSpec.C12'], engines=['forward', 'config']),
-    'C13': dict(spec_mods=['SsoSpec.C13'], engines=['proxyflow']),
+    'C13': dict(spec_mods=['SsoSpec.C13'], engines=['proxyflow', 'config']),
     'C14': dict(spec_mods=['SsoSpec.C14'], engines=['config']),
     'C15': dict(spec_mods=['SsoSpec.C15'], engines=['breaker']),
     'C16': dict(spec_mods=['SsoSpec.C16'], engines=['sf', 'sfwrap', 'proxyflow']),
